@@ -404,6 +404,9 @@ def execute(case):
             req_kw["headers"] = h
         else:
             req_kw["headers"] = h
+    if case.get("ctor_headers") is not None:
+        # default headers given to the constructor (pool or manager); request-level headers replace them per call
+        ctor_kw["headers"] = dict(case["ctor_headers"])
     if case.get("body") is not None:
         req_kw["body"] = case["body"]
     net = Net(ChainServer(case.get("break_first", 0)))
